@@ -92,6 +92,28 @@ func runErrpred(c *Ctx) {
 		})
 	}
 
+	// every consumer of the final-error notion reaches the identity comparison (directly or through its private helpers)
+	for _, cons := range []struct{ typ, name string }{{"Result", "Err"}, {"Result", "Len"}, {"", "NewFunc"}, {"Func", "Redefine"}} {
+		var f *ssa.Function
+		if cons.typ == "" {
+			f = p.Func(p.Arg, cons.name)
+		} else {
+			f = p.Method(p.Arg, cons.typ, cons.name)
+		}
+		if f == nil {
+			c.R.Undecided("ERRPRED", cons.name+"|uses-identity-predicate", cons.name, "-", "exported function not found")
+			continue
+		}
+		found := false
+		p.RegionInstrs(f, func(in ssa.Instruction) {
+			if b, ok := in.(*ssa.BinOp); ok && (b.Op == token.EQL || b.Op == token.NEQ) && (isErrT(b.X) || isErrT(b.Y)) {
+				found = true
+			}
+		})
+		c.R.Add("ERRPRED", core.FuncName(f)+"|uses-identity-predicate", core.FuncName(f), p.Pos(f.Pos()), found,
+			"whoever needs to know whether the last output is the error decides it by the identity comparison with `error`", fmt.Sprintf("comparison in region=%v", found))
+	}
+
 	// Err|exact-conditions: the final output is reported as the error under exactly the reviewed conditions
 	if em := p.Method(p.Arg, "Result", "Err"); em != nil {
 		c.R.Func(core.FuncName(em))
@@ -102,7 +124,7 @@ func runErrpred(c *Ctx) {
 			}
 			extra := ""
 			seen := map[string]bool{}
-			for _, l := range core.Lits(core.Guards(r.Block())) {
+			for _, l := range p.ExpandLits(core.Lits(core.Guards(r.Block()))) {
 				switch {
 				case l.Kind == "cmp" && l.Op == token.EQL && l.Pol && (core.IsNilConst(l.X) || core.IsNilConst(l.Y)) &&
 					(strings.HasSuffix(core.Path(l.X), ".buildErr") || strings.HasSuffix(core.Path(l.Y), ".buildErr")):
@@ -264,19 +286,21 @@ func runErrpred(c *Ctx) {
 		okPred := true
 		cmpSeen := false
 		for _, r := range core.Returns(hasM) {
-			switch x := r.Results[0].(type) {
-			case *ssa.Const:
-				if x.Value != nil && x.Value.ExactString() == "true" {
+			for _, src := range p.ISources(r.Results[0]) {
+				switch x := src.(type) {
+				case *ssa.Const:
+					if x.Value != nil && x.Value.ExactString() == "true" {
+						okPred = false
+					}
+				case *ssa.BinOp:
+					if x.Op == token.EQL && (isErrT(x.X) || isErrT(x.Y)) {
+						cmpSeen = true
+					} else {
+						okPred = false
+					}
+				default:
 					okPred = false
 				}
-			case *ssa.BinOp:
-				if x.Op == token.EQL && (isErrT(x.X) || isErrT(x.Y)) {
-					cmpSeen = true
-				} else {
-					okPred = false
-				}
-			default:
-				okPred = false
 			}
 		}
 		c.R.Add("LEN", "hasError|predicate", core.FuncName(hasM), p.Pos(hasM.Pos()), okPred && cmpSeen,
